@@ -65,8 +65,8 @@ def setup(J):
             jobs.append(comp(f"globber-dependent-k{k}", tier, {"comp": "globberdep", "k": k}, mode="delay", delay=1, budget=20))
         trees = ["a.txt,b.txt,c.dat", "d/a.txt,d/b.txt,e/a.txt,a.txt", "x1.txt,x2.txt,y/x3.txt,x.tx"]
         for ti, tr in enumerate(trees):
-            for pat in ("*.txt", "*", "d/*.txt", "*/a.txt", "x?.txt", "nomatch*"):
-                jobs.append(comp(f"globber-t{ti}-{pat.replace('/', '_').replace('*', 'S').replace('?', 'Q')}", tier, {"comp": "globber", "pattern": pat, "tree": tr}, mode="delay", delay=0, budget=10))
+            for pat in ("*.txt", "*", "d/*.txt", "*/a.txt", "x?.txt", "nomatch*", "*.txt;nomatch*;*.dat", "nomatch*;*.txt", "*.dat;*.txt;*/a.txt"):
+                jobs.append(comp(f"globber-t{ti}-{pat.replace('/', '_').replace('*', 'S').replace('?', 'Q').replace(';', '+')}", tier, {"comp": "globber", "pattern": pat, "tree": tr}, mode="delay", delay=0, budget=10))
         return {"level": "model_checking", "stages": [lambda ctx, prev: jobs],
-                "rule": "real components wired to recorder processes; FileCombinator/ParamCombinator: 1-3 (4) ports x lengths 0..2 (+ beyond the buffer with independent upstreams) x every map-iteration variant x schedules (DPOR closed for small, delay bound 1 otherwise): aligned tuples = Cartesian product, each once; IPSelectorSync: 1-3 ports x length <= 3 x ALL predicate outcome patterns; FileSplitter: 0..7 lines x 1..4 lines per split x {with, without} final newline, + 2-3 files through one instance; Concatenator: 0..3 inputs, one or two upstreams; with GroupByTag: every assignment of {untagged, x, y} to 0..3 (4) inputs; sources / readers: lists of length 0..3 (line files with and without a final newline, with blank lines inside and at the end; an empty item is an item); FileGlobber: 6 patterns x 3 trees against an independent matcher, dependent globber behind 1..3 (0..4) upstream tasks",
+                "rule": "real components wired to recorder processes; FileCombinator/ParamCombinator: 1-3 (4) ports x lengths 0..2 (+ beyond the buffer with independent upstreams) x every map-iteration variant x schedules (DPOR closed for small, delay bound 1 otherwise): aligned tuples = Cartesian product, each once; IPSelectorSync: 1-3 ports x length <= 3 x ALL predicate outcome patterns; FileSplitter: 0..7 lines x 1..4 lines per split x {with, without} final newline, + 2-3 files through one instance; Concatenator: 0..3 inputs, one or two upstreams; with GroupByTag: every assignment of {untagged, x, y} to 0..3 (4) inputs; sources / readers: lists of length 0..3 (line files with and without a final newline, with blank lines inside and at the end; an empty item is an item); FileGlobber: 6 patterns and 3 pattern lists (with patterns that match nothing) x 3 trees against an independent matcher, dependent globber behind 1..3 (0..4) upstream tasks",
                 "assumptions": J.BASE_ASSUMPTIONS + ["an exact multiple of the line limit produces a trailing empty part, which the statement allows", "selector streams have equal lengths (inconsistent closing is rejected by design)"]}
